@@ -130,7 +130,9 @@ func Rotate(db clickhouse.Conn, clusterName string, distributed bool, days []Rot
 	if err != nil {
 		return err
 	}
-	err = storagePolicyUpdate(db, clusterName, distributed, storagePolicy, "metrics_15s", "metrics_15s")
+	// the TTL marker of this table is stored under ("rotate", "metrics_15s"): the storage policy marker
+	// needs a key of its own or the two overwrite each other and both ALTERs are repeated on every run
+	err = storagePolicyUpdate(db, clusterName, distributed, storagePolicy, "metrics_15s_storage_policy", "metrics_15s")
 	if err != nil {
 		return err
 	}
